@@ -288,7 +288,7 @@ def gen(rng, tier, index):
         variants.append('FP')
         if per_epoch:
             # a frozen copy taken from a build that keeps being iterated
-            variants += ['G', 'FG']
+            variants += ['G', 'FG', 'FGC']
     pf = {'b1': rng.randrange(1, 4), 'w': rng.randrange(2, 4)}
     pf['bw'] = pf['w'] + rng.randrange(0, 3)
     variants.append('P1')
@@ -337,6 +337,8 @@ class _Variant:
         if self.left <= 0 or self.error:
             return False
         if self.it is None:
+            if callable(self.ds) and not hasattr(self.ds, 'copy'):
+                self.ds = self.ds()        # derived at first use
             self.it = iter(self.ds)
             self.outs.append([])
         try:
@@ -445,6 +447,11 @@ def run(case):
             for name in case['variants']:
                 if name == 'FG':
                     vs[name] = _Variant(name, gbase.copy(freeze=True), E)
+                    continue
+                if name == 'FGC':
+                    # a copy of that frozen copy, taken when FGC is first used (the
+                    # live dataset has usually moved on by then): equally frozen
+                    vs[name] = _Variant(name, (lambda fg=vs['FG']: fg.ds.copy()), E)
                     continue
                 base = W.build(desc)
                 if name == 'G':
@@ -562,7 +569,7 @@ def run(case):
             if not any(v.error for v in vs.values()):
                 ref = vs['A'].outs
                 for name in case['variants']:
-                    if name in ('A', 'F', 'G', 'FG', 'FP'):
+                    if name in ('A', 'F', 'G', 'FG', 'FP', 'FGC'):
                         continue
                     for e in range(E):
                         if vs[name].outs[e] != ref[e]:
@@ -590,6 +597,14 @@ def run(case):
                             % ('of a dataset that kept being iterated' if fname == 'FG' else '',
                                [[list(W.src_ids(x)) for x in ep] for ep in f])))
                         break
+                if 'FGC' in vs and 'FG' in vs and not violations and \
+                        any(vs['FGC'].outs[e] != vs['FG'].outs[0] for e in range(E)):
+                    violations.append(hist.viol(
+                        'frozen_copy_not_frozen', 'frozen_copy_not_frozen:FGC:%s' % tag,
+                        'a copy() of a frozen copy, taken after the live dataset had moved on, '
+                        'iterates %s; the frozen copy itself %s'
+                        % ([[list(W.src_ids(x)) for x in ep] for ep in vs['FGC'].outs],
+                           [list(W.src_ids(x)) for x in vs['FG'].outs[0]])))
                 if 'FG' in vs:
                     probes['frozen_copy_of_live_dataset'] = 1
                 if desc.get('shared_rng') is not None:
